@@ -70,7 +70,7 @@ def _same_times(got, want, what):
         raise Violation(what + "-times", "reader returns times %s, the file holds (sorted) %s" % (g[:5], w[:5]))
 
 
-base = st.fixed_dictionaries(dict(rs=st.integers(0, 2**31 - 1), n=st.integers(1, 5), shuffle=st.booleans(), variant=st.integers(0, 7), nf=st.integers(2, 12)))
+base = st.fixed_dictionaries(dict(rs=st.integers(0, 2**31 - 1), n=st.integers(1, 5), shuffle=st.booleans(), variant=st.integers(0, 7), nf=st.integers(2, 12), opt=st.integers(0, 5)))
 
 
 # ----------------------------------------------------------------------------- TRIAXYS
@@ -99,12 +99,22 @@ def check_triaxys(case, ctx):
                 I.triaxys_nondirspec(p, t, f0, df, E)
             paths.append(p)
             truth.append(E)
-        with ctx.lib("read_triaxys(%d files)" % len(paths)):
-            ds = read_triaxys(paths if case["variant"] % 2 else os.path.join(w, "*SPEC"))
-        _same_times(ds.time.values, times, "triaxys")
+        # documented reader options: toff (hours subtracted from the file's local time), magnetic_variation (added to the
+        # directions; regrid_dir=False keeps the shifted labels and the file's values)
+        opt = case.get("opt", 0)
+        toff = [0, 0, 10, -3.5, 0, 12][opt]
+        mv = [None, None, None, None, 22.0, -7.5][opt] if directional else None
+        kw = {}
+        if toff:
+            kw["toff"] = toff
+        if mv is not None:
+            kw.update(magnetic_variation=mv, regrid_dir=False)
+        with ctx.lib("read_triaxys(%d files, %s)" % (len(paths), kw)):
+            ds = read_triaxys(paths if case["variant"] % 2 else os.path.join(w, "*SPEC"), **kw)
+        _same_times(ds.time.values, [t - dt.timedelta(hours=toff) for t in times], "triaxys")
         _same(ds.freq.values, f0 + df * np.arange(nf), "triaxys-freq", rtol=1e-12, atol=1e-12)
         if directional:
-            _same(ds.dir.values, np.arange(nd) * float(ddir), "triaxys-dir")
+            _same(ds.dir.values, np.arange(nd) * float(ddir) + (mv or 0.0), "triaxys-dir")
             _same(ds.efth.transpose("time", "freq", "dir").values, np.array(truth), "triaxys-values")
         else:
             if "dir" in ds.efth.dims:
@@ -113,7 +123,7 @@ def check_triaxys(case, ctx):
     finally:
         shutil.rmtree(w, ignore_errors=True)
     ctx.nt(len(paths) >= 2 or case["variant"] % 2 == 1)
-    ctx.label("triaxys-%s" % ("dir" if directional else "nondir"), "files=%d" % len(paths), "f0=%g,df=%g" % (f0, df))
+    ctx.label("triaxys-%s" % ("dir" if directional else "nondir"), "files=%d" % len(paths), "f0=%g,df=%g" % (f0, df), "toff" if toff else "no-toff", "magvar" if mv is not None else "no-magvar")
     ctx.show(dict(format="triaxys", directional=directional, files=len(paths), nf=nf, f0=f0, df=df, ddir=ddir))
 
 
